@@ -132,7 +132,7 @@ def reader(file_info, **kwargs):
     if b == "n":
         return None
     with open(file_info.path) as fh:
-        return int(fh.read())
+        return int(fh.read()) + 100000 * int(kwargs.get("tag", 0))     # echo of read_args
 
 
 def writer(data, file_info, **kwargs):
@@ -162,9 +162,16 @@ def first_file(x):
     return file_id(x)
 
 
-def func(*args):
-    """the mapped function: args are (info,), (content,) or (content, info)"""
+def func(*args, **kwargs):
+    """the mapped function: args are the user's args= (strings) followed by (info,), (content,)
+    or (content, info); the user's kwargs= arrive as keywords"""
     ctl = CTL["a"]
+    nu = 0
+    while nu < len(args) and isinstance(args[nu], str):
+        nu += 1
+    uargs, args = args[:nu], args[nu:]
+    if len(args) not in (1, 2):
+        raise TypeError(f"mapped function called with {len(args)} file arguments after {uargs}")
     is_info = lambda x: hasattr(x, "path") or (isinstance(x, (list, tuple)) and x and hasattr(x[0], "path"))
     if len(args) == 1 and is_info(args[0]):
         text = "I" + render_file(args[0])
@@ -174,9 +181,9 @@ def func(*args):
         text = "C" + render_content(c)
         key = None
         if isinstance(c, int):
-            key = c - 1000
+            key = (c - 1000) % 100000
         elif isinstance(c, list) and c:
-            key = c[0] - 1000
+            key = (c[0] - 1000) % 100000
     else:
         text = "C" + render_content(args[0]) + "I" + render_file(args[1])
         key = first_file(args[1])
@@ -187,4 +194,4 @@ def func(*args):
         return None
     if b == "r":
         raise RuntimeError(f"func {key}")
-    return text
+    return "".join("U" + a for a in uargs) + text + "".join(f"K{k}={v}" for k, v in sorted(kwargs.items()))
